@@ -318,7 +318,7 @@ type nopCloser struct{ *strings.Reader }
 func (nopCloser) Close() error { return nil }
 
 var stats = rig.NewStats("C18",
-	"rapid draws a router with or without WithTrace (helper with or without body), 0-8 registrations / removals on four patterns with method sets that may contain TRACE, interleaved Use calls, and 1-6 TRACE requests (live witness, unknown, '*', '', random paths; headers and bodies with HTML metacharacters and binary bytes, a quarter of them marked Transfer-Encoding: chunked); with the option a second router over a plain value handler type whose TRACE handler is the value {0} (the type's zero value) or {9}. With the option: the trace handler answers every path wrapped in exactly the Use middlewares, hand registration of TRACE panics, the helper replies 200 with Content-Type message/http present in the header snapshot taken at WriteHeader and a body equal to html.EscapeString(httputil.DumpRequest(identical request, body)); TRACE is in every Allow set. Without: TRACE is registrable and otherwise answered 404/405 per the table model. Non-trivial: with the option a TRACE on a non-live path or after a Use, or a request with HTML metacharacters; without it a TRACE served by a registered handler; distinct by hash of the case",
+	"rapid draws a router with or without WithTrace (helper with or without body), 0-8 registrations / removals on four patterns with method sets that may contain TRACE, interleaved Use calls, and 1-6 TRACE requests (live witness, unknown, '*', '', random paths; headers and bodies with HTML metacharacters and binary bytes, a quarter of them marked Transfer-Encoding: chunked); with the option a second router over a plain value handler type whose TRACE handler is the value {0} (the type's zero value) or {9}. With the option: the trace handler answers every path wrapped in exactly the Use middlewares, hand registration of TRACE panics, the helper replies 200 with Content-Type message/http present in the header snapshot taken at WriteHeader and a body equal to html.EscapeString(httputil.DumpRequest(identical request, body)); TRACE is in every Allow set. Without: TRACE is registrable and otherwise answered 404/405 per the table model. Non-trivial: with the option a TRACE on a non-live path or after a Use, or a request with HTML metacharacters; without it a TRACE served by a registered handler; distinct by hash of the case. Later additions to the generated domain: Bodies and header values of 10-120 KB with HTML metacharacters at every offset.",
 	"httputil.DumpRequest and html.EscapeString (standard library) are the trusted reference for the helper's body")
 
 func TestProp(t *testing.T) { rig.RunProp(t, stats, gen, check) }
